@@ -168,8 +168,9 @@ def short_exc(exc: BaseException) -> str:
 # --------------------------------------------------------------------------------------
 
 
-class CaseTimeout(Exception):
-    pass
+class CaseTimeout(BaseException):
+    """Raised by the alarm; a BaseException so that the code under test (and the
+    `except Exception` clauses of the oracles) can not take it for a crash."""
 
 
 @contextlib.contextmanager
